@@ -37,7 +37,7 @@ elif len(sys.argv) > 2:
     checks = ALL
 else:
     checks = relevant(os.path.join(d, 'patch.diff'))
-wt = '/tmp/refaccheck/' + name
+wt = '/tmp/refaccheck/%s.%d' % (name, os.getpid())   # unique: several runs may test the same refactoring at once
 sh('git -C /repo worktree remove --force ' + wt)
 rc, out = sh('mkdir -p /tmp/refaccheck && git -C /repo worktree add --detach %s HEAD' % wt)
 res = dict(refactoring=name, checks={}, at=time.strftime('%F %T'))
